@@ -59,6 +59,7 @@ func C05(cfg Cfg) int {
 			run.Inconclusive("workload never produced outcome " + need)
 		}
 	}
+	c05MixedBatches(run, cfg, r)
 	c05Wire(run, cfg)
 	return run.Finish()
 }
@@ -423,5 +424,57 @@ func c05WireCfg(run *evid.Run, cfg Cfg, name string, admins []string) {
 	}
 	if run.Get("wire_exit_signed_from_admin_ip") == 0 || run.Get("wire_exit_refused") == 0 {
 		run.Inconclusive("wire slice never saw an exit signed from an administrator address and one refused from elsewhere")
+	}
+}
+
+// c05MixedBatches: large multisign batches in which harmless and restricted domains alternate, spread over many
+// workers: the verdict of one entry must never end up at another.  No restricted position may come back signed.
+func c05MixedBatches(run *evid.Run, cfg Cfg, r *rand.Rand) {
+	env, err := NewEnv(run, cfg, "c05-mixed", rig.StackOpts{AdminIPs: []string{"10.9.9.9"}})
+	if err != nil {
+		run.Inconclusive(err.Error())
+		return
+	}
+	defer env.Stack.Close()
+	defer runtime.GOMAXPROCS(runtime.GOMAXPROCS(0))
+	env.IP = "10.0.0.1" // not an administrator
+	env.Creds = &checker.Credentials{RequestID: "r", Client: env.Client, IP: env.IP}
+	const n = 64
+	env.FreshKeys(n)
+	restricted := [][]byte{DomainAttester, DomainProposer, DomainExit}
+	rounds := cfg.N(150, 3000)
+	for round := 0; round < rounds && run.NumViolations() < 5; round++ {
+		runtime.GOMAXPROCS([]int{4, 8, 16, 3}[round%4])
+		cs := make([]*GenCase, n)
+		isRestricted := make([]bool, n)
+		for i := range cs {
+			cs[i] = wfGen(r, env, i)
+			if (i+round)%2 == 0 {
+				cs[i].Data.Domain = randDomain(r, restricted[(i/2+round)%3])
+				isRestricted[i] = true
+			}
+		}
+		via := Via(round % 2)
+		res, sigs := env.SignGens(via, cs)
+		run.Eval(n)
+		run.Count("mixed_batch_entries", n)
+		signedHarmless := 0
+		for i := range cs {
+			signed := i < len(sigs) && len(sigs[i]) > 0
+			if isRestricted[i] && (signed || (i < len(res) && res[i] == core.ResultSucceeded)) {
+				run.Violate(fmt.Sprintf("multisign batch of %d mixed entries (GOMAXPROCS %d, %s): position %d carries domain type %x from a non-administrator address and came back signed", n, runtime.GOMAXPROCS(0), viaName(via), i, cs[i].Data.Domain[:4]),
+					map[string]any{"position": i, "domain_type": fmt.Sprintf("%x", cs[i].Data.Domain[:4])})
+			}
+			if !isRestricted[i] && signed {
+				signedHarmless++
+			}
+		}
+		if round == 0 {
+			run.Distinct(fmt.Sprintf("mixed multisign batches: harmless entries signed=%v", signedHarmless > 0))
+		}
+		run.Count("mixed_batch_harmless_signed", signedHarmless)
+	}
+	if run.Get("mixed_batch_harmless_signed") == 0 {
+		run.Inconclusive("mixed batches: no harmless entry was ever signed")
 	}
 }
